@@ -48,18 +48,20 @@ CLAIMED["C16"] = dict(
     text="Bounded symbolic execution of the real prune() of Percentile/Median/SuccessiveHalving/Hyperband/Patient/Threshold/Nop pruners on "
          "symbolic histories (z3-int parameters, z3-real or NaN intermediate values, forked steps and states; SH/Hyperband through the real "
          "ask/report/should_prune flow). z3 discharges on every path: warm-up/start-up/patience gates, strictly-best-is-never-pruned, "
-         "threshold iff, nop never, bracket = f(name, number); integer gates also for unbounded steps.",
+         "threshold iff, nop never, bracket = f(name, number); integer gates also for unbounded steps; WilcoxonPruner's start-up gate and "
+         "average-is-best safety with SciPy's p-value arbitrary (counterexamples replayed with the real SciPy).",
     note="trusted: z3, NumPy object-array shim (nanmin/nanmax/nanpercentile; validated against real NumPy each run), exact reals for value "
-         "comparison; Wilcoxon and bootstrap>0 outside; <=3 other trials, <=4 steps",
+         "comparison; the numeric value of SciPy's Wilcoxon p-value and bootstrap>0 outside; <=3 other trials, <=4 steps",
     design="§3 C16")
 
 CLAIMED["C13"] = dict(
     text="Relational bounded symbolic execution: one symbolic history (z3-real values, pairwise distinct; NaN forks) is fed to two instances "
          "of the real code as (MAXIMIZE, H) and (MINIMIZE, -H) with thresholds mirrored; z3 proves equal decisions on every path pair for "
          "Percentile/Median/SuccessiveHalving/Hyperband/Patient/Threshold pruners, Study.best_trial, the Pareto front with any subset of "
-         "objectives flipped, TPE _split_trials and the NSGA-II elite population selection (rank + crowding distance).",
+         "objectives flipped, TPE _split_trials, the NSGA-II elite population selection (rank + crowding distance) and WilcoxonPruner "
+         "(SciPy's signed-rank p-value an uninterpreted function with the test's exact symmetry; counterexamples replayed with the real SciPy).",
     note="claim is over exact reals (negation/comparison exact on doubles; percentile interpolation rounding is outside and its one known "
-         "tie-rounding witness is listed as a known finding); GP/CMA-ES/Wilcoxon and whole seeded runs outside",
+         "tie-rounding witness is listed as a known finding); GP/CMA-ES and whole seeded runs outside",
     design="§3 C13")
 
 CLAIMED["C12"] = dict(
@@ -159,8 +161,11 @@ CLAIMED["C07"] = dict(
          "line read, from an arbitrary earlier offset cache: exactly records k..j, never a partial record, cached offsets == true offsets. (b) bounded "
          "model checking of the lock protocol: the call-site automaton of the real append_logs (both lock classes) is re-extracted from the source on every "
          "run, K=2-3 copies composed in z3 with a file-system/clock model (bit-vector BMC over macro steps, symbolic schedule): for all schedules up to the "
-         "depth never two lock holders, release() never raises, unwinding check unsat, reachability witness sat; sat schedules replayed on the real code.",
-    note="operating assumption of the lease lock (hold < 10 s, no suspension > 5-10 s between shared calls, grace 30 s); POSIX atomicity of "
+         "depth never two lock holders, release() never raises, unwinding check unsat, reachability witness sat; sat schedules replayed on the real code. "
+         "Variants: a holder that keeps the lock for the whole grace period and hands over at the last moment; a waiting worker interrupted by SIGINT "
+         "(KeyboardInterrupt out of time.sleep as a symbolic fault).",
+    note="operating assumption of the lease lock (hold <= 10 s, or <= the 30 s grace period in the longhold obligations; a waiter is not suspended > 5-10 s "
+         "between shared calls; grace 30 s); POSIX atomicity of "
          "symlink/O_EXCL/rename; threads sharing one backend object are C03",
     technique="symbolic execution (reader) + automaton extraction from the real code and z3 bit-vector bounded model checking (lock), replayed",
     design="§3 C07")
@@ -170,9 +175,10 @@ CLAIMED["C05"] = dict(
          "bytes of the interrupted write delivered is symbolic; survivors and a fresh opener continue through the real append_logs/read_logs (stale lock "
          "overcome through the real grace-period path): acknowledged appends visible in order, interrupted one all-or-nothing, no survivor call raises, "
          "cached offsets agree with a fresh reader. Takeover of a dead holder's lock by two survivors is decided by the C07 model checker under arbitrary "
-         "timing and replayed. Two genuine defects are re-derived on every run and listed as known findings (torn record; double takeover).",
-    note="POSIX model of append-mode writes; SQLite/RDB crash atomicity is outside (C library); signal handlers that run (KeyboardInterrupt while "
-         "waiting for the lock) are outside the kill model",
+         "timing and replayed; a waiter killed by SIGINT while sleeping (finally-blocks run) is a symbolic fault of the same model checker. Two genuine "
+         "defects are re-derived on every run and listed as known findings (torn record; double takeover).",
+    note="POSIX model of append-mode writes; SQLite/RDB crash atomicity is outside (C library); KeyboardInterrupt at other points than the waiter's "
+         "sleep is outside",
     technique="symbolic fault points over the real code (executor) + z3 bounded model checking of the lock takeover, replayed on the real code",
     design="§3 C05")
 
